@@ -60,7 +60,7 @@ impl Property for C09 {
         case.cfg.insert("mode".into(), json!(mode));
         let mut f = Features::draw(&mut cfg_rng);
         f.functions = true;
-        f.nomerge = cfg_rng.chance(1, 3);
+        f.nomerge = mode == "plain" && cfg_rng.chance(1, 3);
         f.pushpop = cfg_rng.chance(1, 3);
         f.subsume = cfg_rng.chance(1, 4);
         if mode != "plain" {
@@ -153,13 +153,19 @@ impl Property for C09 {
         let s1 = &case.ops[..i_bad];
         let bad = &case.ops[i_bad + 1..i_s2];
         let s2 = &case.ops[i_s2 + 1..];
+        let mut refused_in_s1: Vec<String> = Vec::new();
         for op in s1 {
             let a = with.run(op);
             let b = without.run(op);
             res.log(&format!("S1 {op} => {}", normalized(&a)));
             if let Outcome::Panic(p) = &a {
-                res.violation(&panic_class(p), format!("{op}: {p}"));
+                res.violation(&panic_class(p), format!("mode={mode:?} after commands refused as {refused_in_s1:?}, {op}: {p}"));
                 return res;
+            }
+            if let Outcome::Err { kind, .. } = &a {
+                if !refused_in_s1.contains(kind) {
+                    refused_in_s1.push(kind.clone());
+                }
             }
             if normalized(&a) != normalized(&b) {
                 res.verdict = crate::case::Verdict::HarnessError(format!("S1 diverged on {op}"));
@@ -176,7 +182,10 @@ impl Property for C09 {
             kinds.push(o.kind().to_string());
             match &o {
                 Outcome::Panic(p) => {
-                    res.violation(&panic_class(p), format!("{}: {p}", op.chars().take(200).collect::<String>()));
+                    res.violation(
+                        &panic_class(p),
+                        format!("mode={mode:?} after commands refused as {:?}, {}: {p}", refused_in_s1.iter().chain(kinds.iter()).collect::<Vec<_>>(), op.chars().take(200).collect::<String>()),
+                    );
                     return res;
                 }
                 Outcome::Err { kind, .. } => {
